@@ -113,7 +113,7 @@ func ruleC15R1(r *Run) {
 		if fa.Kind == "read" || fa.Kind == "nested" {
 			continue
 		}
-		name := p.fnName(fa.Fn)
+		name := p.hostName(fa.Fn)
 		construct := name + "#" + fa.Owner + "." + fa.Field + "." + fa.Kind
 		if strings.HasPrefix(fa.Kind, "call:") {
 			callee := strings.TrimPrefix(fa.Kind, "call:")
@@ -189,7 +189,7 @@ func ruleC15R2(r *Run) {
 				continue
 			}
 			n++
-			name := p.fnName(fa.Fn)
+			name := p.hostName(fa.Fn)
 			construct := name + "#" + pub.owner + "." + pub.field + ".read"
 			if _, inDo := p.onceDoClosure(fa.Fn); inDo {
 				r.OK(construct, fa.Instr.Pos(), "read inside the Do function")
